@@ -434,7 +434,7 @@ def real_dropout(c):
     ix = 0
     for mul, ir in irreps:
         d = ir.dim
-        blk = ratio[:, :, ix:ix + mul * d].reshape(B, -1, mul, d)
+        blk = ratio[:, :, ix:ix + mul * d].reshape(B, ratio.shape[1], mul, d)
         ix += mul * d
         for b in range(B):
             for u in range(mul):
@@ -451,7 +451,7 @@ def real_dropout(c):
     off = 0
     for mul, ir in irreps:
         d = ir.dim
-        blk = ratio[:, :, ix:ix + mul * d].reshape(B, -1, mul, d)
+        blk = ratio[:, :, ix:ix + mul * d].reshape(B, ratio.shape[1], mul, d)
         ix += mul * d
         for b in range(B):
             for u in range(mul):
